@@ -1,0 +1,36 @@
+// Licensed to Elasticsearch B.V. under one or more contributor
+// license agreements. See the NOTICE file distributed with
+// this work for additional information regarding copyright
+// ownership. Elasticsearch B.V. licenses this file to you under
+// the Apache License, Version 2.0 (the "License"); you may
+// not use this file except in compliance with the License.
+// You may obtain a copy of the License at
+//
+//     http://www.apache.org/licenses/LICENSE-2.0
+//
+// Unless required by applicable law or agreed to in writing,
+// software distributed under the License is distributed on an
+// "AS IS" BASIS, WITHOUT WARRANTIES OR CONDITIONS OF ANY
+// KIND, either express or implied.  See the License for the
+// specific language governing permissions and limitations
+// under the License.
+
+//go:build linux && !verif
+
+package libaudit
+
+import "syscall"
+
+// verifNetlinkState is empty unless the package is built with the "verif"
+// tag (deterministic-simulation hooks, see verif_netlink_on.go).
+type verifNetlinkState struct{}
+
+// verifSocket always returns nil without the "verif" build tag, so the
+// branches guarded by it are never taken.
+func (c *NetlinkClient) verifSocket() verifNoSocket { return nil }
+
+type verifNoSocket interface {
+	Sendto(p []byte, flags int, to syscall.Sockaddr) error
+	Recvfrom(p []byte, flags int) (n int, from syscall.Sockaddr, err error)
+	Close() error
+}
